@@ -2,6 +2,7 @@
 import atexit
 import os
 import shutil
+import stat
 
 from vf.sim import registry
 
@@ -36,6 +37,29 @@ def cleanup():
     _root = None
 
 
+_chr_ok = None
+
+
+def chr_supported():
+    """can this process create and open character special files in the scratch directory? (needs CAP_MKNOD and no nodev mount)"""
+    global _chr_ok
+    if _chr_ok is None:
+        p = os.path.join(root(), "chrprobe%d" % os.getpid())
+        try:
+            os.mknod(p, stat.S_IFCHR | 0o600, os.makedev(1, 3))
+            with open(p, "rb+"):
+                pass
+            _chr_ok = True
+        except OSError:
+            _chr_ok = False
+        finally:
+            try:
+                os.unlink(p)
+            except OSError:
+                pass
+    return _chr_ok
+
+
 class Node(object):
     """a device path with generations; each generation is a distinct inode bound to a target.
 
@@ -43,7 +67,7 @@ class Node(object):
     file descriptors and descriptor numbers are only ever taken by the library.
     """
 
-    def __init__(self, target_factory, name=None, symlink=False):
+    def __init__(self, target_factory, name=None, symlink=False, chr=False):
         global _counter
         _counter += 1
         self.path = os.path.join(root(), name or "node%d" % _counter)
@@ -51,6 +75,8 @@ class Node(object):
         self.real = self.path + ".real" if symlink else self.path
         if symlink:
             os.symlink(self.real, self.path)
+        # with chr=True every generation is a character special file for the SAME device number (1:3), as a re-plugged /dev/sgN is
+        self.chr = chr
         self.target_factory = target_factory
         self.generation = 0
         self.targets = {}          # generation -> Target
@@ -63,9 +89,13 @@ class Node(object):
         """(re)create the node: new inode, new generation"""
         self.generation += 1
         tmp = self.path + ".new%d" % self.generation
-        fd = os.open(tmp, os.O_CREAT | os.O_RDWR | os.O_EXCL, 0o600)
-        st = os.fstat(fd)
-        os.close(fd)
+        if self.chr:
+            os.mknod(tmp, stat.S_IFCHR | 0o600, os.makedev(1, 3))
+            st = os.stat(tmp)
+        else:
+            fd = os.open(tmp, os.O_CREAT | os.O_RDWR | os.O_EXCL, 0o600)
+            st = os.fstat(fd)
+            os.close(fd)
         os.link(tmp, self.path + ".keep%d" % self.generation)
         os.rename(tmp, self.real)
         tgt = self.target_factory(self.generation)
